@@ -96,6 +96,7 @@ type e2eLoc struct {
 }
 
 func TestE2EShareAcks(t *testing.T) {
+	knownSplitRenew() // prints the KNOWN-FINDING line while the finding is listed as open
 	rapid.Check(t, func(rt *rapid.T) {
 		p := genE2E(rt)
 		if os.Getenv("VERIF_DEBUG") != "" {
